@@ -7,7 +7,7 @@ RULE = ('one case = a real datacake_rpc::Server on loopback with three services 
         'add_service / remove_service events (each add installs a new instance, so replacement is observable); after EVERY event all four (service, message) '
         'pairs are sent over a fresh client channel AND over one long-lived connection per case and classified ok:<instance> / unavailable; quick: all sequences up to length 3 plus random ones up to 10; ' 'a second family has two service TYPES registered under ONE name, a four-message service and eight single-message bystanders (16 pairs called after every event); '
         'thorough: all sequences up to length 5; non-trivial = contains a remove of a registered service while another service is registered; distinct by hash')
-ASSUMPTIONS = ['SipHash of the handler URIs is injective on the URIs in play (handler keys of different services are disjoint)',
+ASSUMPTIONS = ['(none about a hash function any more: since fix D26 a handler is keyed by its request path itself; path_keys_well_owned)',
                'hyper/h2 deliver each request to the service function (transport is exercised, not modelled)']
 TRUSTED_BASE = ['correspondence: dcharness (real Server::add_service/remove_service + RpcClient::send over 127.0.0.1) vs dcdriver (Datacake.Rpc registry model); '
                 'spec oracle = last-event function `registered`']
@@ -17,9 +17,10 @@ JOBS = 8
 PAIRS = [('A', 'M1'), ('B', 'M1'), ('C', 'M1'), ('C', 'M2')]
 EVENTS = ['add A', 'add B', 'add C', 'remove A', 'remove B', 'remove C']
 # second family: D and E are two service TYPES registered under ONE name ("shared"), S has four message types,
-# P0..P7 are single-message bystanders (their hashed keys fall all over the key space)
-TYPES2 = ['D', 'E', 'S', 'G', 'H', 'I', 'J', 'K', 'L'] + ['P%d' % i for i in range(8)]      # G: a service whose name contains '<' and '>' (generic type); H: the same generic name with another parameter; I, J: `kv::store` / `kv_store`; K: `gen-M1-` (what a lossy sanitiser could turn G's name into); L: `pair<M1, M2>` (type_name of a two-parameter generic: a comma and a space)
-PAIRS2 = [('D', 'M1'), ('E', 'M2'), ('G', 'M1'), ('H', 'M1'), ('I', 'M1'), ('J', 'M1'), ('K', 'M1'), ('L', 'M1'), ('S', 'M1'), ('S', 'M2'), ('S', 'M3'), ('S', 'M4')] + [('P%d' % i, 'M1') for i in range(8)] + [('A', 'M1'), ('C', 'M2')]
+# P0..P7 are single-message bystanders; X and Y are two names whose request paths for the message `u64` have the same 64-bit
+# std-hash value (the key of a handler used to be that hash: D26)
+TYPES2 = ['D', 'E', 'S', 'G', 'H', 'I', 'J', 'K', 'L', 'X', 'Y'] + ['P%d' % i for i in range(8)]      # G: a service whose name contains '<' and '>' (generic type); H: the same generic name with another parameter; I, J: `kv::store` / `kv_store`; K: `gen-M1-` (what a lossy sanitiser could turn G's name into); L: `pair<M1, M2>` (type_name of a two-parameter generic: a comma and a space)
+PAIRS2 = [('D', 'M1'), ('E', 'M2'), ('G', 'M1'), ('H', 'M1'), ('I', 'M1'), ('J', 'M1'), ('K', 'M1'), ('L', 'M1'), ('X', 'U'), ('Y', 'U'), ('S', 'M1'), ('S', 'M2'), ('S', 'M3'), ('S', 'M4')] + [('P%d' % i, 'M1') for i in range(8)] + [('A', 'M1'), ('C', 'M2')]
 EVENTS2 = ['add %s' % t for t in TYPES2 + ['A', 'C']] + ['remove %s' % t for t in TYPES2 + ['A', 'C']]
 
 
